@@ -375,6 +375,19 @@ func buildC16(cfg *mon.Config) []*mon.Sub {
 					tk := t.SymbolState().NextToken(rio.NewStringScanner(e+"x"), t)
 					return fmt.Sprintf("%d %q", tk.Type(), tk.Value())
 				}
+				// what an instance that never got the addition must read: the longest built-in symbol, else one character
+				wantText := string([]rune(e)[:1])
+				for _, bsym := range builtin {
+					if strings.HasPrefix(e, bsym) && len(bsym) > len(wantText) {
+						wantText = bsym
+					}
+				}
+				if parts[0] != "csv" {
+					if b := rd(later); !strings.HasSuffix(b, fmt.Sprintf(" %q", wantText)) {
+						c.Failf("a symbol registered on one tokenizer shows in another instance", "tokenizer=%s: after adding %q to one instance, a NEW instance reads %q as %s, expected the built-in reading %q", parts[0], parts[1], e+"x", b, wantText)
+						return
+					}
+				}
 				if a, b := rd(pristine), rd(later); a != b {
 					c.Failf("a symbol registered on one tokenizer shows in another instance", "tokenizer=%s: after adding %q to one instance, a new instance reads %q as %s, an untouched older instance as %s", parts[0], parts[1], e, b, a)
 					return
